@@ -80,8 +80,8 @@ PROPS = {
         tie=["ZipVerif.Tie.Aes"],
         streams=["aes"],
         title="WinZip-AES entries decrypt correctly and tampering is detected",
-        level_text="Lean 4 theorems modulo the cryptographic primitives (PBKDF2-HMAC-SHA1, the AES block function and HMAC-SHA1 are uninterpreted parameters; only their output lengths are assumed): the little-endian CTR key stream is chunking independent, involutive and byte i is byte i%16 of AES_k(le128(i/16+1)); with the right password every caller-buffer and short-read schedule returns exactly ct xor key stream for every length; no password -> password-required, wrong verifier -> InvalidPassword, too-short entry -> InvalidData, early end of the inner stream -> UnexpectedEof; any successful end-of-file of the AES reader on a non-empty entry implies that HMAC(all ciphertext)[0..10] was compared with the stored code and matched and that exactly data_length bytes were consumed (no delivery hypothesis), the finalized assertion and every arithmetic panic are unreachable; CRC flag = (vendor version is AE-2). The model is tied to the source by the regenerated AesMode lengths / constants / method table (Tie obligations) and by correspondence of AesReaderValid::read, AesCtrZipKeyStream, the 0x9901 extra-field parse and the open-time decisions on entries built by the harness's own AE-x encryptor",
-        level_note="HMAC unforgeability, PBKDF2 and AES themselves are parameters (oracle tables in the correspondence); the entry-level tamper statement is partial for compressing inner methods: the authentication code is verified only if the decompressor pulls the last ciphertext byte (finding D12, reproduced on the real crate); empty entries never compare their code; translator and harness are trusted as stated in DESIGN.md section 7",
+        level_text="Lean 4 theorems modulo the cryptographic primitives (PBKDF2-HMAC-SHA1, the AES block function and HMAC-SHA1 are uninterpreted parameters; only their output lengths are assumed): the little-endian CTR key stream is chunking independent, involutive and byte i is byte i%16 of AES_k(le128(i/16+1)); with the right password every caller-buffer and short-read schedule returns exactly ct xor key stream for every length; no password -> password-required, wrong verifier -> InvalidPassword, too-short entry -> InvalidData, early end of the inner stream -> UnexpectedEof; any successful end-of-file of the AES reader on a non-empty entry implies that HMAC(all ciphertext)[0..10] was compared with the stored code and matched and that exactly data_length bytes were consumed (no delivery hypothesis), and the same at the level of ZipFile::read for every inner method and ANY decoder behaviour (entry_eof_implies_mac, aes_tamper_detected_entry: finish_crypto drains the AES reader at the decoder's end-of-file); the finalized assertion and every arithmetic panic are unreachable; CRC flag = (vendor version is AE-2). The model is tied to the source by the regenerated AesMode lengths / constants / method table (Tie obligations) and by correspondence of AesReaderValid::read, AesCtrZipKeyStream, the 0x9901 extra-field parse and the open-time decisions on entries built by the harness's own AE-x encryptor",
+        level_note="HMAC unforgeability, PBKDF2 and AES themselves are parameters (oracle tables in the correspondence); decoders (flate2, bzip2, zstd) are arbitrary strategies in the entry-level theorems, assumed only to end their read call with an error when the reader below returns one; inflate is a table in the correspondence; empty entries never compare their code (stated as aes_empty_entry_no_mac); D12 (code unchecked at an early decoder end-of-file) was found by this property, is fixed in /repo and is kept as regression cases plus the pre-fix model witness; translator and harness are trusted as stated in DESIGN.md section 7",
     ),
 }
 
